@@ -102,3 +102,33 @@ buf_h!(c20_bufmgr_two_threads_limit, {
     assert!(m.allocated() == 0);
     std::mem::forget((m, ga, gb));
 });
+
+//@ property: C20
+//@ tier: quick
+//@ cap_s: 400
+//@ stubs: parking_lot slow paths, alloc::fmt::format, BufferManager::run_eviction_internal -> 0 (no consumers registered)
+//@ encodes: MemoryGrant::{resize,size,region}, BufferManager::{try_allocate,try_allocate_raw,try_reserve,release,allocated}
+//@ symbolic: the initial grant size and the size it is resized to (every usize)
+//@ bound: one thread, one grant, one resize (grow or shrink); budget 1000, hard limit = budget
+//@ oracle: the manager's total always equals the size the grant reports; a refused grow leaves both unchanged; the limit is never exceeded; releasing the grant's reported size returns the accounting to zero
+buf_h!(c20_grant_resize_accounting, {
+    let m = BufferManager::new(cfg(1000));
+    let s1: usize = kani::any(); let s2: usize = kani::any();
+    let g = m.try_allocate(s1, MemoryRegion::GraphStorage);
+    if let Some(mut g) = g {
+        assert!(m.allocated() == s1 && g.size() == s1);
+        let ok = g.resize(s2);
+        assert!(m.allocated() <= 1000, "more memory handed out than the hard limit");
+        assert!(m.allocated() == g.size(), "the grant reports a size the manager did not account for");
+        if ok { assert!(g.size() == s2); } else { assert!(g.size() == s1 && s2 > s1, "a refused resize changed the grant"); }
+        kani::cover!(!ok);
+        kani::cover!(ok && s2 > s1);
+        kani::cover!(ok && s2 < s1);
+        m.release(g.size(), g.region());
+        assert!(m.allocated() == 0, "accounting does not return to zero");
+        std::mem::forget(g);
+    } else {
+        assert!(s1 > 1000);
+    }
+    std::mem::forget(m);
+});
